@@ -131,6 +131,13 @@ def signature(which, cmdline, detail):
         d = ":" + re.sub(r"[^A-Za-z_]", "", detail)[:60]
     elif which == "face-unusable":
         d = ":" + re.sub(r"^\d+=", "", detail).split(":")[0]
+    elif which == "dataset-unanswered":
+        # size class of the table the request reads: a dataset of a small table must be answered; the pinned code gives up
+        # only when the encoded dataset exceeds one segment (8000 bytes; every entry takes at least ~10 bytes)
+        sizes = dict(kv.split("=") for kv in detail.split(",") if "=" in kv)
+        tab = {"rib/list": "rib", "fib/list": "fib", "strategy-choice/list": "strat", "faces/list": "faces"}.get(mv)
+        n = int(sizes.get(tab, "0")) if tab else 0
+        d = ":entries>=100" if n >= 100 else ":entries<100"
     return "%s:%s:%s%s" % (which, top, mv, d)
 
 
@@ -212,7 +219,7 @@ def run(R):
     if not same:
         R.notes.append("translated constants differ from coq/Mgmt/GenConsts.reference (the constants the theorems were last proved for)")
     if not R.quick:
-        R.coqchk(FAM, ["Mgmt.Proofs"])
+        R.coqchk(FAM, ["Mgmt.Proofs", "Mgmt.Effects"])
     ok, runner, log = vlib.extract_build(FAM)
     if not ok:
         R.proof_problems.append("extraction/OCaml build of the Mgmt model failed")
@@ -224,105 +231,115 @@ def run(R):
         R.log(log[-1500:])
         return R.finish()
 
-    n = 250 if R.quick else 6000
-    rc, out, trace = run_harness(R, dict(VERIF_SEED=R.seed, VERIF_N=n, VERIF_CORPUS=os.path.join(vlib.VERIF, "corpus", "C17")), "trace",
-                                 timeout=300 if R.quick else 1500)
-    if rc != 0:
-        R.oracle_failure("harness-crash", "the Go harness aborted (a panic outside the management goroutine, or a hang)", dict(output=out[-3000:]))
-        return R.finish()
-    lines = open(trace, errors="replace").read().split("\n")
-    rout = run_runner(runner, trace)
-    oracle, diverge, bad, done = analyse(lines, rout)
-    if not done:
-        R.proof_problems.append("runner did not finish: " + rout[-300:])
-    for b in bad[:5]:
-        R.proof_problems.append("runner: " + b)
-
-    # ---- the theorems do not check against the current constants: search a failing input with the proved (reference) model
-    if not proved and not same:
-        ref_runner, log = reference_runner(R)
-        if ref_runner is None:
-            R.log("reference runner could not be built: " + log[-400:])
-        else:
-            o2, d2, _, _ = analyse(lines, run_runner(ref_runner, trace))
-            R.log("reference-model replay: %d divergences" % len(d2))
-            for (ln, kind, rest) in d2:
-                diverge.append((ln, "ref-" + kind, rest))
-
-    # ---- coverage
-    cases = split_cases(lines)
+    n = 250 if R.quick else 20000
+    configs = [("nametree", n, True), ("hashtable", 60 if R.quick else 3000, False)]
+    reported = {}
     kinds, labels, resp_kinds = {}, {}, {}
     distinct = set()
-    ncmds = 0
-    for c in cases:
-        ck = set()
-        init = None
-        changed = False
-        for (_, l) in c["lines"]:
-            if l.startswith("INIT "):
-                init = l[5:]
-            elif l.startswith("TAB ") and init is not None and l[4:] != init:
-                changed = True
-            elif l.startswith("CMD "):
-                ncmds += 1
-                top, mv = hexname_words(l.split(" ")[2])
-                ck.add(mv)
-                kinds[mv] = kinds.get(mv, 0) + 1
-            elif l.startswith("OBS "):
-                k = " ".join(l.split(" ")[1:3]) if l.startswith("OBS ctl") else l.split(" ")[1]
-                resp_kinds[k] = resp_kinds.get(k, 0) + 1
-        for o in c["ops"]:
-            if o.startswith("cmd "):
-                f = o.split(" ")
-                for lab in (f[4].split(",")[1:] if len(f) > 4 else []):
-                    lab = re.sub(r"=.*", "", lab)
-                    labels[lab] = labels.get(lab, 0) + 1
-        if len(ck) >= 3 and changed:
-            distinct.add(hashlib.sha1("\n".join(c["ops"]).encode()).hexdigest())
+    ncmds = ncases = 0
+    samples = []
+    per_config = {}
+    for (algo, count, with_corpus) in configs:
+        env = dict(VERIF_SEED=R.seed, VERIF_N=count, VERIF_FIB=algo)
+        if with_corpus:
+            env["VERIF_CORPUS"] = os.path.join(vlib.VERIF, "corpus", "C17")
+        rc, out, trace = run_harness(R, env, "trace-" + algo, timeout=300 if R.quick else 1500)
+        if rc != 0:
+            R.oracle_failure("harness-crash", "the Go harness aborted (a panic outside the management goroutine, or a hang)",
+                             dict(output=out[-3000:], fib=algo))
+            continue
+        lines = open(trace, errors="replace").read().split("\n")
+        rout = run_runner(runner, trace)
+        oracle, diverge, bad, done = analyse(lines, rout)
+        if not done:
+            R.proof_problems.append("runner did not finish (%s): %s" % (algo, rout[-300:]))
+        for b in bad[:5]:
+            R.proof_problems.append("runner: " + b)
+
+        # the theorems do not check against the current constants: search a failing input with the proved (reference) model
+        if not proved and not same:
+            ref_runner, log = reference_runner(R)
+            if ref_runner is None:
+                R.log("reference runner could not be built: " + log[-400:])
+            else:
+                o2, d2, _, _ = analyse(lines, run_runner(ref_runner, trace))
+                R.log("reference-model replay (%s): %d divergences" % (algo, len(d2)))
+                for (ln, kind, rest) in d2:
+                    diverge.append((ln, "ref-" + kind, rest))
+
+        # ---- coverage
+        cases = split_cases(lines)
+        per_config[algo] = len(cases)
+        ncases += len(cases)
+        for c in cases:
+            ck = set()
+            init = None
+            changed = False
+            for (_, l) in c["lines"]:
+                if l.startswith("INIT "):
+                    init = l[5:]
+                elif l.startswith("TAB ") and init is not None and l[4:] != init:
+                    changed = True
+                elif l.startswith("CMD "):
+                    ncmds += 1
+                    top, mv = hexname_words(l.split(" ")[2])
+                    ck.add(mv)
+                    kinds[mv] = kinds.get(mv, 0) + 1
+                elif l.startswith("OBS "):
+                    k = " ".join(l.split(" ")[1:3]) if l.startswith("OBS ctl") else l.split(" ")[1]
+                    resp_kinds[k] = resp_kinds.get(k, 0) + 1
+            for o in c["ops"]:
+                if o.startswith("cmd "):
+                    f = o.split(" ")
+                    for lab in (f[4].split(",")[1:] if len(f) > 4 else []):
+                        lab = re.sub(r"=.*", "", lab)
+                        labels[lab] = labels.get(lab, 0) + 1
+            if len(ck) >= 3 and changed:
+                distinct.add(hashlib.sha1((algo + "\n" + "\n".join(c["ops"])).encode()).hexdigest())
+        for c in cases[:2]:
+            cm = [o for o in c["ops"] if o.startswith("cmd ")]
+            samples.append("[%s FIB] history of %d commands, e.g. %s" % (algo, len(cm), "; ".join((o.split(" ")[4] if len(o.split(" ")) > 4 else "?") for o in cm[:4])))
+
+        # ---- failures of this configuration
+        def case_of(ln, cases=cases):
+            for c in cases:
+                if c["first"] <= ln <= c["last"]:
+                    return c
+            return None
+        for (ln, which, detail) in oracle:
+            cmdline = lines[ln - 1]
+            sig = signature(which, cmdline, detail)
+            if sig in reported:
+                reported[sig]["count"] += 1
+                continue
+            reported[sig] = dict(count=1, which=which, detail=detail, cmdline=cmdline, ops=list((case_of(ln) or {}).get("ops", [])), fib=algo)
+        for (ln, kind, rest) in diverge:
+            cls = classify_divergence(kind, rest)
+            cmdline = lines[ln - 1] if lines[ln - 1].startswith("CMD ") else "CMD ? -"
+            if cls is None:
+                c = case_of(ln)
+                R.divergence("model and implementation disagree on %s at trace line %d (%s FIB): %s" % (kind, ln, algo, rest[:300]),
+                             dict(trace_line=cmdline[:2000], ops=(c or {}).get("ops", [])[:80], detail=rest[:2000], fib=algo))
+                continue
+            sig = signature(cls, cmdline, kind) + ":" + kind
+            if sig in reported:
+                reported[sig]["count"] += 1
+                continue
+            reported[sig] = dict(count=1, which=cls, detail=kind + " " + rest, cmdline=cmdline, ops=list((case_of(ln) or {}).get("ops", [])), fib=algo)
+
     top_kinds = dict(sorted(kinds.items(), key=lambda kv: -kv[1])[:40])
-    R.coverage["distribution"] = dict(histories=len(cases), commands=ncmds, commands_by_module_verb=top_kinds,
+    R.coverage["distribution"] = dict(histories=ncases, histories_by_fib_algorithm=per_config, commands=ncmds, commands_by_module_verb=top_kinds,
                                       adversarial_labels=labels, responses=resp_kinds)
     R.coverage["rule"] = ("one evaluation = one generated history (6-25 management Interests plus a final read-back of every dataset) executed on the real "
                           "management thread with all tables compared after every command; non-trivial = at least 3 distinct module/verb kinds and at "
-                          "least one table state different from the initial one; distinct by SHA-1 of the history's operation text")
-    samples = []
-    for c in cases[:3]:
-        cm = [o for o in c["ops"] if o.startswith("cmd ")]
-        samples.append("history of %d commands, e.g. %s" % (len(cm), "; ".join((o.split(" ")[4] if len(o.split(" ")) > 4 else "?") for o in cm[:4])))
-    R.add_cases(len(cases), len(distinct), samples)
+                          "least one table state different from the initial one; distinct by SHA-1 of the history's operation text (and FIB algorithm)")
+    R.add_cases(ncases, len(distinct), samples)
 
-    # ---- failures
-    def case_of(ln):
-        for c in cases:
-            if c["first"] <= ln <= c["last"]:
-                return c
-        return None
-    reported = {}
-    for (ln, which, detail) in oracle:
-        cmdline = lines[ln - 1]
-        sig = signature(which, cmdline, detail)
-        if sig in reported:
-            reported[sig]["count"] += 1
-            continue
-        reported[sig] = dict(count=1, ln=ln, which=which, detail=detail, cmdline=cmdline)
-    for (ln, kind, rest) in diverge:
-        cls = classify_divergence(kind, rest)
-        cmdline = lines[ln - 1] if lines[ln - 1].startswith("CMD ") else "CMD ? -"
-        if cls is None:
-            c = case_of(ln)
-            R.divergence("model and implementation disagree on %s at trace line %d: %s" % (kind, ln, rest[:300]),
-                         dict(trace_line=cmdline[:2000], ops=(c or {}).get("ops", [])[:80], detail=rest[:2000]))
-            continue
-        sig = signature(cls, cmdline, kind) + ":" + kind
-        if sig in reported:
-            reported[sig]["count"] += 1
-            continue
-        reported[sig] = dict(count=1, ln=ln, which=cls, detail=kind + " " + rest, cmdline=cmdline)
     kf = vlib.known_findings(R.pid)
     shrunk = 0
     for sig, info in reported.items():
-        c = case_of(info["ln"])
-        ops = list((c or {}).get("ops", []))
+        ops = info["ops"]
+        os.environ["VERIF_FIB"] = info["fib"]
         known = any(rx.search(sig) for rx, _ in kf)
         if ops and not known and shrunk < 4:
             try:
@@ -337,6 +354,7 @@ def run(R):
             "impure-reject": "tables changed although the command was not answered with status 200",
             "status-class": "a ControlResponse status outside {200, 4xx, 5xx}",
             "dataset": "a status dataset does not list exactly the table contents",
+            "dataset-unanswered": "a status dataset request is not answered at all",
             "strategy-table": "an accepted strategy-choice command installed a strategy that no forwarding thread instantiates",
             "mtu-floor": "an accepted face MTU leaves no room for a fragment payload",
             "face-unusable": "after the command a face can no longer send (or its send path panics)",
@@ -345,7 +363,7 @@ def run(R):
             "refmodel": "response or table effect differs from the proved model (status code, default value, bound or guard changed in the source)",
         }.get(info["which"], info["which"])
         R.oracle_failure(sig, what + " [" + info["detail"][:300] + "]",
-                         dict(command=info["cmdline"][:3000], occurrences=info["count"], ops=ops,
+                         dict(command=info["cmdline"][:3000], occurrences=info["count"], ops=ops, fib_algorithm=info["fib"],
                               replay_hint="write the ops lines to a file F and run: VERIF_OPS=F work/C17/h.test -test.run TestTrace (trace in $VERIF_OUT), "
                                           "or bin/check C17 --replay <this file>"))
     return R.finish()
@@ -364,6 +382,7 @@ def replay(R, path):
     if not (ok and ok2):
         print("build failed")
         return 2
+    os.environ["VERIF_FIB"] = body.get("fib_algorithm", "nametree")
     opsf = os.path.join(R.work, "replay.ops")
     open(opsf, "w").write("\n".join(ops) + "\n")
     rc, out, trace = run_harness(R, dict(VERIF_OPS=opsf), "replay.trace", timeout=120)
